@@ -1,1 +1,156 @@
-//! simulator helpers
+//! Lock-step harness: the crate's Simulator and the reference machine in the same state,
+//! stepped together and compared after every step.
+#![allow(dead_code)]
+use crate::refsim::*;
+use lc3_ensemble::ast::Reg;
+use lc3_ensemble::sim::device::{BufferedDisplay, BufferedKeyboard, Interrupt, InterruptFromFn};
+use lc3_ensemble::sim::mem::{MachineInitStrategy, Word};
+use lc3_ensemble::sim::{InternalRegister, MemAccessCtx, SimErr, SimFlags, Simulator};
+use std::collections::VecDeque;
+use std::sync::{Arc, Mutex};
+
+pub fn reg(n: usize) -> Reg { Reg::try_from(n as u8 & 7).unwrap() }
+
+pub fn err_kind(e: &SimErr) -> &'static str {
+    match e {
+        SimErr::IllegalOpcode => "IllegalOpcode", SimErr::InvalidInstrFormat => "InvalidInstrFormat", SimErr::PrivilegeViolation => "PrivilegeViolation",
+        SimErr::AccessViolation => "AccessViolation", SimErr::UnresolvedExternal(_) => "UnresolvedExternal", SimErr::Interrupt(_) => "Interrupt",
+        SimErr::StrictRegSetUninit => "StrictRegSetUninit", SimErr::StrictMemSetUninit => "StrictMemSetUninit", SimErr::StrictIOSetUninit => "StrictIOSetUninit",
+        SimErr::StrictJmpAddrUninit => "StrictJmpAddrUninit", SimErr::StrictSRAddrUninit => "StrictSRAddrUninit", SimErr::StrictMemAddrUninit => "StrictMemAddrUninit",
+        SimErr::StrictPCCurrUninit => "StrictPCCurrUninit", SimErr::StrictPCNextUninit => "StrictPCNextUninit", SimErr::StrictPSRSetUninit => "StrictPSRSetUninit",
+    }
+}
+pub fn is_strict_err(e: &SimErr) -> bool { err_kind(e).starts_with("Strict") }
+pub fn rerr_name(e: RErr) -> &'static str { match e { RErr::IllegalOpcode => "IllegalOpcode", RErr::InvalidInstrFormat => "InvalidInstrFormat", RErr::PrivilegeViolation => "PrivilegeViolation", RErr::AccessViolation => "AccessViolation" } }
+
+pub const SP_PORT: u16 = 0xFFF0;
+pub fn priv_ctx() -> MemAccessCtx { MemAccessCtx { privileged: true, strict: false, io_effects: true, track_access: false } }
+
+pub type IrqCell = Arc<Mutex<Option<(u8, u8)>>>;
+
+pub struct Pair {
+    pub sim: Simulator,
+    pub r: RefSim,
+    pub kb: Option<BufferedKeyboard>,
+    pub ds: Option<BufferedDisplay>,
+    pub irq: IrqCell,
+    pub steps: u64,
+}
+
+#[derive(Clone, Debug)]
+pub struct Mismatch { pub component: String, pub detail: String }
+
+impl Pair {
+    /// Fresh simulator + reference with identical state. Memory outside the OS image is `fill` and initialized.
+    pub fn new(real_traps: bool, ignore_privilege: bool, debug_frames: bool, fill: u16, kbd: Option<&[u8]>, display: bool) -> Pair {
+        let flags = SimFlags { strict: false, use_real_traps: real_traps, machine_init: MachineInitStrategy::Known { value: fill }, debug_frames, ignore_privilege };
+        let mut sim = Simulator::new(flags);
+        let mut r = RefSim::new();
+        r.real_traps = real_traps; r.ignore_privilege = ignore_privilege; r.debug_frames = debug_frames;
+        // adopt the machine's initial memory image (the OS image itself is checked by C29)
+        for a in 0..=0xFFFFu16 { let v = sim.mem[a].get(); sim.mem[a] = Word::new_init(v); r.mem[a as usize] = v; }
+        for i in 0..8 { sim.reg_file[reg(i)].set(fill); r.reg[i] = fill; }
+        sim.mmap_internal(SP_PORT, InternalRegister::SavedSP).expect("map saved sp");
+        r.ireg.insert(SP_PORT, IReg::SavedSP);
+        let kb = kbd.map(|bytes| { let k = BufferedKeyboard::default(); k.get_buffer().write().unwrap().extend(bytes.iter().copied()); sim.device_handler.set_keyboard(k.clone()); r.kbd = Some(bytes.iter().copied().collect()); k });
+        let ds = display.then(|| { let d = BufferedDisplay::default(); sim.device_handler.set_display(d.clone()); r.display = Some(vec![]); d });
+        let irq: IrqCell = Arc::new(Mutex::new(None));
+        let cell = irq.clone();
+        sim.device_handler.add_device(InterruptFromFn::new(move || cell.lock().unwrap().take().map(|(v, p)| Interrupt::vectored(v, p))), &[]).expect("add irq device");
+        Pair { sim, r, kb, ds, irq, steps: 0 }
+    }
+    pub fn set_mem(&mut self, a: u16, v: u16) { self.sim.mem[a] = Word::new_init(v); self.r.mem[a as usize] = v; }
+    pub fn set_reg(&mut self, i: usize, v: u16) { self.sim.reg_file[reg(i)].set(v); self.r.reg[i] = v; }
+    pub fn set_pc(&mut self, v: u16) { self.sim.pc = v; self.r.pc = v; }
+    /// through the PSR port (masked, CC normalized)
+    pub fn set_psr(&mut self, v: u16) {
+        self.sim.write_mem(PSR_ADDR, Word::new_init(v), priv_ctx()).expect("psr port");
+        self.r.psr_store(v); self.r.mem[PSR_ADDR as usize] = v;
+    }
+    pub fn set_saved_sp(&mut self, v: u16) {
+        self.sim.write_mem(SP_PORT, Word::new_init(v), priv_ctx()).expect("sp port");
+        self.r.saved_sp = v; self.r.mem[SP_PORT as usize] = v;
+    }
+    pub fn set_kbd_ie(&mut self, on: bool) {
+        if self.kb.is_some() { let v = (on as u16) << 14; self.sim.write_mem(KBSR, Word::new_init(v), priv_ctx()).expect("kbsr"); self.r.kbd_ie = on; self.r.mem[KBSR as usize] = v; }
+    }
+    pub fn saved_sp_of_sim(&mut self) -> u16 {
+        let v = self.sim.read_mem(SP_PORT, MemAccessCtx::omnipotent()).map(|w| w.get()).unwrap_or(0);
+        self.r.mem[SP_PORT as usize] = self.r.saved_sp; // the same peek refreshes the reference's mirror
+        v
+    }
+
+    /// One step of both machines. Returns the crate's result and the reference outcome.
+    pub fn step(&mut self, pending: Option<(u8, u8)>) -> (Result<(), SimErr>, Outcome) {
+        *self.irq.lock().unwrap() = pending;
+        self.r.acc.clear();
+        let got = self.sim.step_in();
+        *self.irq.lock().unwrap() = None;
+        let exp = self.r.step(pending);
+        self.steps += 1;
+        // adopt-not-assert: condition codes right after an entry; pushed PC of an exception under real traps
+        if matches!(self.r.last_kind, StepKind::InterruptEntry | StepKind::ExceptionEntry | StepKind::TrapEntry) && exp == Outcome::Ok {
+            let cc = self.sim.psr().get() & 7;
+            self.r.psr = (self.r.psr & !7) | cc;
+            if self.r.last_kind == StepKind::ExceptionEntry { if let Some(a) = self.r.last_pushed_pc_addr { if a < 0xFE00 { self.r.mem[a as usize] = self.sim.mem[a].get(); } } }
+        }
+        (got, exp)
+    }
+
+    /// Compare the two machines after a step. `full_mem`: compare all 64K words, otherwise only touched addresses.
+    pub fn compare(&mut self, got: &Result<(), SimErr>, exp: Outcome, full_mem: bool) -> Option<Mismatch> {
+        let mm = |c: &str, d: String| Some(Mismatch { component: c.to_string(), detail: d });
+        match (got, exp) {
+            (Ok(()), Outcome::Ok) | (Ok(()), Outcome::Halt) => {}
+            (Err(e), Outcome::Err(x)) if err_kind(e) == rerr_name(x) => {}
+            (g, x) => return mm("result", format!("step returned {:?}, reference {:?}", g.as_ref().map_err(err_kind), x)),
+        }
+        if self.sim.pc != self.r.pc { return mm("pc", format!("PC x{:04X}, reference x{:04X}", self.sim.pc, self.r.pc)); }
+        for i in 0..8 { let v = self.sim.reg_file[reg(i)].get(); if v != self.r.reg[i] { return mm("reg", format!("R{i} = x{v:04X}, reference x{:04X}", self.r.reg[i])); } }
+        let p = self.sim.psr().get();
+        if p != self.r.psr {
+            let c = if p & 0x8000 != self.r.psr & 0x8000 { "psr.privilege" } else if p & 0x0700 != self.r.psr & 0x0700 { "psr.priority" } else if p & 7 != self.r.psr & 7 { "psr.cc" } else { "psr.other-bits" };
+            return mm(c, format!("PSR x{p:04X}, reference x{:04X}", self.r.psr));
+        }
+        let sp = self.saved_sp_of_sim();
+        if sp != self.r.saved_sp { return mm("saved_sp", format!("saved SP x{sp:04X}, reference x{:04X}", self.r.saved_sp)); }
+        if self.sim.instructions_run != self.r.instructions_run { return mm("instructions_run", format!("{} vs reference {}", self.sim.instructions_run, self.r.instructions_run)); }
+        if self.sim.frame_stack.len() != self.r.frame_no { return mm("frame_depth", format!("{} vs reference {}", self.sim.frame_stack.len(), self.r.frame_no)); }
+        if got.is_err() || exp == Outcome::Halt {
+            let g = crate::monitor::guard(|| self.sim.prefetch_pc());
+            match g { Ok(v) if v == self.r.prefetch_pc() => {}, Ok(v) => return mm("prefetch_pc", format!("prefetch_pc() = x{v:04X}, reference x{:04X}", self.r.prefetch_pc())), Err(p) => return mm("prefetch_pc-panics", p.msg) }
+        }
+        if let (Some(d), Some(rd)) = (&self.ds, &self.r.display) { let b = d.get_buffer().read().unwrap(); if *b != *rd { return mm("display", format!("display {:?}, reference {:?}", String::from_utf8_lossy(&b), String::from_utf8_lossy(rd))); } }
+        if let (Some(k), Some(rk)) = (&self.kb, &self.r.kbd) { let b = k.get_buffer().read().unwrap(); if !b.iter().eq(rk.iter()) { return mm("keyboard", format!("keyboard queue {:?}, reference {:?}", b, rk)); } }
+        if self.r.kbd.is_some() { /* interrupt enable is visible through KBSR reads */ }
+        if full_mem {
+            for a in 0..=0xFFFFu16 { let v = self.sim.mem[a].get(); if v != self.r.mem[a as usize] { return mm(if a >= 0xFE00 { "mem.io-mirror" } else { "mem" }, format!("mem[x{a:04X}] = x{v:04X}, reference x{:04X}", self.r.mem[a as usize])); } }
+        } else {
+            let mut touched: Vec<u16> = self.r.acc.keys().copied().collect();
+            touched.extend(self.sim.observer.take_mem_accesses().map(|(a, _)| a));
+            for a in touched { let v = self.sim.mem[a].get(); if v != self.r.mem[a as usize] { return mm(if a >= 0xFE00 { "mem.io-mirror" } else { "mem" }, format!("mem[x{a:04X}] = x{v:04X}, reference x{:04X}", self.r.mem[a as usize])); } }
+        }
+        None
+    }
+}
+
+/// words biased toward valid encodings with fields at their extremes
+pub fn biased_word(rng: &mut crate::rng::Rng) -> u16 {
+    use crate::refasm::LAYOUTS;
+    if rng.chance(1, 6) { return rng.u16(); }
+    let l = &LAYOUTS[rng.usize(LAYOUTS.len())];
+    let (_, mut w) = l.mask_bits();
+    for ch in ['c', 'd', 's', 't', 'i', 'o', 'v'] {
+        if let Some(f) = l.field(ch) {
+            let max = (1u32 << f.width) - 1;
+            let v = match rng.below(6) { 0 => 0, 1 => max, 2 => max >> 1, 3 => (max >> 1) + 1, 4 => 1, _ => rng.below(max as u64 + 1) as u32 };
+            l.put(&mut w, ch, v as i32);
+        }
+    }
+    w
+}
+
+pub fn boundary_addr(rng: &mut crate::rng::Rng) -> u16 {
+    const B: [u16; 24] = [0x0000, 0x0001, 0x00FF, 0x0100, 0x01FF, 0x0200, 0x2FFE, 0x2FFF, 0x3000, 0x3001, 0x7FFF, 0x8000, 0xFDFE, 0xFDFF, 0xFE00, 0xFE02, 0xFE04, 0xFE06, 0xFFF0, 0xFFFC, 0xFFFE, 0xFFFF, 0x4000, 0xC000];
+    if rng.chance(2, 3) { *rng.pick(&B) } else { rng.u16() }
+}
